@@ -86,7 +86,10 @@ func (s *Solver) readLine() string {
 func (s *Solver) Check() string {
 	t0 := time.Now()
 	s.raw("(check-sat)")
+	// z3's own :timeout is not always honoured (preprocessing): a watchdog kills the process
+	wd := time.AfterFunc(time.Duration(s.timeout)*time.Millisecond+10*time.Second, func() { s.cmd.Process.Kill() })
 	r := s.readLine()
+	wd.Stop()
 	for strings.HasPrefix(r, "(error") || strings.HasPrefix(r, "unsupported") || strings.HasPrefix(r, ";") {
 		// an error concerning an earlier command: record and keep reading until the verdict
 		s.Errors = append(s.Errors, r)
